@@ -40,7 +40,7 @@ package udp
 //@ ghost global filterOk bool
 
 //@ func (l *listener) newConn(rAddr net.Addr) (c *Conn)
-//@   ensures c != nil && fresh(c) && c.listener == l && c.rAddr == rAddr && c.buffer != nil && c.doneCh != nil && !closed(c.doneCh) && !c.reg && !c.ever && !c.gone && !oncedone(c.doneOnce)
+//@   ensures c != nil && fresh(c) && c.listener == l && c.rAddr == rAddr && c.buffer != nil && c.buffer.readDeadline != nil && c.doneCh != nil && !closed(c.doneCh) && !c.reg && !c.ever && !c.gone && !oncedone(c.doneOnce)
 
 //@ func (l *listener) getConn(raddr net.Addr, buf []byte) (c *Conn, ok bool, err error)
 //@   requires raddr != nil && l.acceptCh != nil
@@ -115,5 +115,5 @@ package udp
 //@ field BatchConn closed atomic
 //@ lockset C19: listener, Conn, BatchConn
 
-//@ property C10: Conn.Read, Conn.SetReadDeadline
+//@ property C10: listener.newConn, Conn.Read, Conn.SetReadDeadline
 //@ property C11: listener.newConn, listener.getConn, listener.dispatchMsg, listener.Accept, Conn.Close
